@@ -151,7 +151,7 @@ def run_case(case):
             if msg not in acceptable:
                 raise Violation("assert_message", idx, {"message": msg[:300], "acceptable": [a[:300] for a in acceptable][:4]})
             P["assert_fired"] += 1
-            pr.dig.add(("assert", msg), state=False)
+            pr.dig.add(("assert", sorted(acceptable)), state=False)     # which of several failing assertions fires first is free
             raise Stop()
 
         if '"c"' in txt or 'c"]' in txt:
